@@ -15,6 +15,7 @@ import (
 
 	"pgregory.net/rand"
 
+	"github.com/VKCOM/statshouse/internal/agent"
 	"github.com/VKCOM/statshouse/internal/data_model"
 	"github.com/VKCOM/statshouse/internal/format"
 	vu "github.com/VKCOM/statshouse/internal/verifutil"
@@ -808,7 +809,7 @@ type failer struct {
 }
 
 var c05Oracles = map[string]bool{"no_panic": true, "each_row_once": true, "small_row_discarded_maxfloat": true, "kept_sf_ge_1": true, "kept_sf_ge_1_fixed_metric_within_budget": true,
-	"no_sample_agent_kept": true, "quota_factors": true, "random_keep_is_draw_below_inverse_factor": true, "row_carries_selection_factor": true,
+	"no_sample_agent_kept": true, "quota_factors": true, "random_keep_is_draw_below_inverse_factor": true, "row_carries_selection_factor": true, "agent_kept_row_carries_factor_on_wire": true, "agent_each_row_at_most_once_on_wire": true,
 	"kept_without_selection_has_factor_1": true}
 
 func (f failer) Fail(name string, line int, input string) {
@@ -1147,6 +1148,134 @@ func evalCase(o0 *vu.Out, b *bucketSpec, seed uint64) (skipped bool) {
 	return false
 }
 
+// agentStage: the agent path. Shard.sampleBucket samples a bucket that exceeds the shard budget and its keepF writes the
+// kept rows into the SourceBucket3; every kept row must be transferred as count*SF and sum*SF (sum as the receiver
+// restores it when only min and counter are sent).
+func agentStage(o0 *vu.Out, r *vu.Rng) {
+	o := failer{o0}
+	const now = 1000 * 24 * 3600
+	target := []int{2, 3, 4, 10, 6, 20}[r.Intn(6)] // intended factor of the non-whale rows
+	n := target * (1 + r.Intn(4))
+	if target <= 3 && r.Bool() { // no whales: SF = sf
+		n = 2 + r.Intn(2)
+		if n >= 2*target {
+			n = 2*target - 1
+		}
+	}
+	kind := r.Intn(3) // 0 counter, 1 value rows with min == max, 2 value rows with min != max
+	raws := []float64{1, 1, 1, 2, 3, 0.5, 1.5, 2.25}
+	sameRaw := r.Chance(60)
+	raw0 := raws[r.Intn(len(raws))]
+	meta := &format.MetricMetaValue{MetricID: 1, NamespaceID: 1, GroupID: 1, EffectiveResolution: 1, EffectiveWeight: 1}
+	meta2 := &format.MetricMetaValue{MetricID: 2, NamespaceID: 1, GroupID: 1, EffectiveResolution: 1, EffectiveWeight: 1}
+	type orig struct {
+		item     *data_model.MultiItem
+		raw, sum float64
+	}
+	var items []*data_model.MultiItem
+	origs := map[[2]int32]*orig{}
+	add := func(m *format.MetricMetaValue, i int32, raw float64) int {
+		it := &data_model.MultiItem{Key: data_model.Key{Timestamp: now, Metric: m.MetricID, Tags: [format.MaxTags]int32{i}}, SF: 1, MetricMeta: m}
+		og := &orig{item: it, raw: raw}
+		switch kind {
+		case 0:
+			it.Tail.Value.AddCounter(raw)
+		case 1:
+			v := float64(1 + r.Intn(9))
+			it.Tail.Value.AddValueCounter(v, raw)
+			og.sum = v * raw
+		default:
+			it.Tail.Value.AddValueCounter(2, raw)
+			it.Tail.Value.AddValueCounter(5, 1)
+			og.raw, og.sum = raw+1, 2*raw+5
+		}
+		items = append(items, it)
+		origs[[2]int32{m.MetricID, i}] = og
+		return it.Key.TLSizeEstimate(now) + it.TLSizeEstimate()
+	}
+	total := 0
+	for i := 1; i <= n; i++ {
+		raw := raw0
+		if !sameRaw {
+			raw = raws[r.Intn(len(raws))]
+		}
+		total += add(meta, int32(i), raw)
+	}
+	budget := total * 2 / target // sf = target/2, doubled when whales take half
+	if n < 2*target && n <= 3 {
+		budget = total / target // no whales: sf = target
+	}
+	small := 0
+	if r.Chance(40) { // a neighbour metric within its share: SF 1 rows
+		small = add(meta2, 1, raws[r.Intn(len(raws))])
+		budget = 2 * budget // both metrics have weight 1: each gets half
+		if small > budget/2 {
+			small = 0
+		}
+	}
+	if budget < 1 {
+		budget = 1
+	}
+	rows := agent.VerifSampleBucketWithBudget(now, items, r.U64(), budget)
+	var ws []string
+	seen := map[[2]int32]bool{}
+	bad, dup := false, false
+	nSampled1, nSampled := 0, 0
+	for _, m := range rows {
+		if len(m.Keys) == 0 {
+			continue
+		}
+		k := [2]int32{m.Metric, m.Keys[0]}
+		og := origs[k]
+		if og == nil {
+			continue
+		}
+		if seen[k] {
+			dup = true
+		}
+		seen[k] = true
+		wc := m.Tail.Counter
+		if m.Tail.IsSetCounterEq1(m.FieldsMask) {
+			wc = 1
+		}
+		wsum := 0.0
+		if m.Tail.IsSetValueSet(m.FieldsMask) {
+			if m.Tail.IsSetValueMax(m.FieldsMask) {
+				wsum = m.Tail.ValueSum
+			} else {
+				wsum = m.Tail.ValueMin * wc // MergeWithTLItem2 restores the sum
+			}
+		}
+		sf := og.item.SF
+		if sf > 1 {
+			nSampled++
+			if og.raw == 1 {
+				nSampled1++
+			}
+		}
+		if wc != og.raw*sf || math.Abs(wsum-og.sum*sf) > 1e-12*math.Abs(og.sum*sf) {
+			bad = true
+		}
+		ws = append(ws, fmt.Sprintf("W %s %s %s %s %s", ratTerm(og.raw), ratTerm(og.sum), ratTerm(sf), ratTerm(wc), ratTerm(wsum)))
+	}
+	input := fmt.Sprintf("agent-path kind=%d rows=%d target_sf=%d raw=%v same_raw=%v total=%d shard_budget=%d neighbour=%d kept_on_wire=%d kept_with_sf>1=%d of_them_raw_count_1=%d",
+		kind, n, target, raw0, sameRaw, total, budget, small, len(ws), nSampled, nSampled1)
+	kinds := []string{"agent-path"}
+	if nSampled > 0 {
+		kinds = append(kinds, "agent-path/kept-with-sf>1")
+	}
+	if nSampled1 > 0 {
+		kinds = append(kinds, "agent-path/raw-count-1-kept-with-sf>1")
+	}
+	line := o.Case(input, "CWire ["+strings.Join(ws, ";")+"]", nSampled > 0, kinds...)
+	if bad {
+		o.Fail("agent_kept_row_carries_factor_on_wire", line, input)
+	}
+	if dup {
+		o.Fail("agent_each_row_at_most_once_on_wire", line, input)
+	}
+}
+
 func witness(cfg cfgSpec, budget int64, ms []*metricSpec, rows []*rowSpec) *bucketSpec {
 	return &bucketSpec{cfg: cfg, budget: budget, metrics: ms, rows: rows}
 }
@@ -1216,6 +1345,9 @@ func main() {
 			b = genDirected(r)
 		} else if i%8 == 5 {
 			b = genFairKeys(r)
+		} else if i%8 == 1 && prop == "C05" {
+			agentStage(o, r)
+			continue
 		}
 		evalCase(o, b, r.U64())
 	}
